@@ -40,8 +40,8 @@ CLAIMED = {
     "C16": dict(
         text=("Proof: the four pending-list representations agree after EVERY history (induction over op lists, incl. XGROUP SETID backwards, explicit-id reads and re-delivery of ids that are already "
               "pending: representations_agree_fixed for the tree as it is since 4e71041), exactly-once delivery under > for every history and start position, XACK counts once / idempotent, XCLAIM moves "
-              "ownership, XPENDING (summary, range, range + consumer filter) equals the actual pending set, administration effects and isolation, refused administration changes nothing - 39 Lean theorems over "
-              "a transliteration of consumer_groups.rs with six source switches; every op's reply and the verif_dump of all representations are compared with the model in-process (42k evaluations per quick "
+              "ownership, XPENDING (summary, range, range + consumer filter) equals the actual pending set, administration effects and isolation, refused commands change nothing (incl. all-or-nothing multi-stream reads), border ids read literally - 43 Lean theorems over "
+              "a transliteration of consumer_groups.rs with nine source switches; every op's reply and the verif_dump of all representations are compared with the model in-process (42k evaluations per quick "
               "run, Spec judged on the implementation's own dumps), through the typed API and the real handle_x* functions, with a real-time layer for idle thresholds and an independent oracle that a refused op leaves every dump unchanged."),
         note=TB + "Source switches (start id, NOACK, reversed range, explicit-id history, re-delivery, consumer filter) are detected by regex in lib/c16.py; idle times are Booleans in the model (real-time layer checks thresholds); handlers are driven in-process, not over TCP.",
         ref="DESIGN.md section 5 C16"),
